@@ -39,6 +39,9 @@ type CountFn = fn(Tier) -> u64;
 fn table(prop: &str) -> Option<(CountFn, GenFn, RunFn)> {
     Some(match prop {
         "C01" => (c01::count, c01::gen, c01::run),
+        "C02" => (c02::count, c02::gen, c02::run),
+        "C03" => (c03::count, c03::gen, c03::run),
+        "C15" => (c15::count, c15::gen, c15::run),
         _ => return None,
     })
 }
